@@ -198,7 +198,7 @@ class Assembly:
             body, c = X.r10_break_value(body, types); log.append(('R10 break-with-value desugar', c))
         # structure of the ORIGINAL body (before the logged substitutions): a changed number of loops / closures is exit 2
         nl, nc = X.count_loops(body), X.count_closures(body)
-        _lock_check(a, item, nl, nc)
+        _lock_check(a, item, nl, nc, bool(sec.get('closures')) or bool(sec.get('loops')) or bool(sec.get('loopends')))
         if 'loops' in a and int(a['loops']) != nl:
             raise Undecided('fn %s: expected %s loops, found %d' % (a['name'], a['loops'], nl))
         if 'closures' in a and int(a['closures']) != nc:
@@ -314,7 +314,7 @@ LOCK_PATH = os.path.join(VERIF, 'contracts', 'structure.lock.json')
 _LOCK = None
 
 
-def _lock_check(a, item, nl, nc):
+def _lock_check(a, item, nl, nc, has_ordinal_specs=True):
     """the number of loops and closures of every function under contract is pinned (contracts/structure.lock.json, written by
     tools/lock_structure.py on the tree the contracts were developed against). Splices are keyed by loop / closure ordinal and
     un-annotated new closures carry no specification, so a structural change means the contracts no longer describe this body:
@@ -336,6 +336,10 @@ def _lock_check(a, item, nl, nc):
         except Exception:
             _LOCK = {}
     if key in _LOCK and list(_LOCK[key]) != [nl, nc]:
+        if not has_ordinal_specs and nl <= _LOCK[key][0] and nc <= _LOCK[key][1]:
+            # FEWER loops / closures and the template splices nothing by ordinal into this function: no un-annotated new closure or loop can
+            # be the reason for a failed obligation, and nothing can be misaligned - the (simpler) body is verified as it stands
+            return
         raise Undecided('structure of %s changed: %d loops / %d closures, contracts were written for %d / %d' % (key, nl, nc, _LOCK[key][0], _LOCK[key][1]))
 
 
